@@ -409,6 +409,9 @@ class Driver:
                 import resource
                 cap = DRIVER_MEM_MB * 1024 * 1024
                 resource.setrlimit(resource.RLIMIT_AS, (cap, cap))
+                # few file descriptors: a run that keeps every input file open meets the limit with hundreds, not thousands, of files
+                hard = resource.getrlimit(resource.RLIMIT_NOFILE)[1]
+                resource.setrlimit(resource.RLIMIT_NOFILE, (min(256, hard) if hard != resource.RLIM_INFINITY else 256, hard))
         self.proc = subprocess.Popen(self.cmd or (self.wrapper + [self.path, "serve"]), stdin=subprocess.PIPE,
                                      stdout=subprocess.PIPE, stderr=err, env=env, cwd=self.cwd, preexec_fn=limit)
         if self.stderr_path:
